@@ -145,4 +145,34 @@ example : (match load { C01.demo with
         if s = ['/'] then (s, rs ++ [⟨"rId9".toList, "r".toList, "ppt/NULL".toList, false⟩]) else (s, rs) } true with
     | .ok L => L.parts.map (·.name) | .error _ => []) = ["/a/p.xml".toList, "/b/q.bin".toList] := by decide
 
+/-- **a non-presentation main part is refused with ValueError, never opened**: the verdict is `some true` exactly when the
+    office-document relationship leads to a part whose content type is one of the two presentation main types -/
+theorem openVerdict_true_iff (L : Loaded) (rt : Str) :
+    openVerdict L rt = some true ↔
+      ∃ r q, L.pkgRels.find? (fun r => r.rtype == rt && !r.external) = some r ∧ partByName L r.target = some q ∧
+        (q.ct = "application/vnd.openxmlformats-officedocument.presentationml.presentation.main+xml".toList ∨
+         q.ct = "application/vnd.ms-powerpoint.presentation.macroEnabled.main+xml".toList) := by
+  unfold openVerdict
+  cases hf : L.pkgRels.find? (fun r => r.rtype == rt && !r.external) with
+  | none => simp
+  | some r =>
+    show (partByName L r.target).map (fun q => isPresentationType q.ct) = some true ↔ _
+    constructor
+    · intro h
+      cases hq : partByName L r.target with
+      | none => rw [hq] at h; cases h
+      | some q =>
+        rw [hq] at h
+        simp only [Option.map_some, Option.some.injEq, isPresentationType, Bool.or_eq_true, beq_iff_eq] at h
+        exact ⟨r, q, rfl, hq, h⟩
+    · rintro ⟨r', q', e1, e2, h⟩
+      simp only [Option.some.injEq] at e1; subst e1
+      rw [e2]
+      simp only [Option.map_some, Option.some.injEq, isPresentationType, Bool.or_eq_true, beq_iff_eq]
+      exact h
+
+example : isPresentationType "application/vnd.openxmlformats-officedocument.presentationml.template.main+xml".toList = false
+    ∧ isPresentationType "application/vnd.openxmlformats-officedocument.presentationml.slideshow.main+xml".toList = false
+    ∧ isPresentationType "application/vnd.ms-powerpoint.presentation.macroEnabled.main+xml".toList = true := by decide
+
 end Pptx.C16
